@@ -16,6 +16,7 @@
 //
 // usage: replay_loader <behaviours-file> <out.ndjson> <good-zone-file>
 #include <atomic>
+#include <cerrno>
 #include <chrono>
 #include <condition_variable>
 #include <fstream>
@@ -170,6 +171,11 @@ static std::unique_ptr<ZoneInfoSource> Factory(
   if (strcmp(kind_of(name), "good") == 0) return std::unique_ptr<ZoneInfoSource>(new MemSource(g_good));
   // two ways for a name to fail: the source has nothing ("bad" -> nullptr), or it serves data that is rejected
   // ("bad2": a truncated copy of the good data, "bad3...": not TZif at all) - either way one call per name
+  // A failing source leaves an OS error code behind as a real one would (out of descriptors, no such file, ...):
+  // whatever the reason, the failure is remembered and the factory is not asked again.
+  static const int kErrnos[] = {EMFILE, ENOENT, ENFILE, ENOMEM, EACCES, EINTR, 0, EAGAIN, EIO};
+  static std::atomic<unsigned> nerr{0};
+  errno = kErrnos[nerr++ % (sizeof kErrnos / sizeof kErrnos[0])];
   std::string b = base_of(name);
   if (b == "bad2") return std::unique_ptr<ZoneInfoSource>(new MemSource(g_good.substr(0, g_good.size() / 2)));
   if (b.compare(0, 4, "bad3") == 0) return std::unique_ptr<ZoneInfoSource>(new MemSource(std::string("this is not zone data\n")));
